@@ -773,7 +773,15 @@ def coarse_grid_solver(solver):
             lvl = MultilevelSolver.Level()
             lvl.A = A
             fn = getattr(smoothing, 'setup_' + str(solver))
-            relax = fn(lvl, **kwargs)
+            # the setup may estimate a spectral radius from a random vector
+            # (cached on A afterwards); draw it from a fixed state, so that
+            # a solve does not depend on the solves performed before it
+            state = np.random.get_state()
+            try:
+                np.random.seed(0)
+                relax = fn(lvl, **kwargs)
+            finally:
+                np.random.set_state(state)
             x = np.zeros_like(b)
             relax(A, x, b)
 
